@@ -59,7 +59,7 @@ impl Engine for C08 {
     fn bound(&self, tier: Tier) -> String {
         match tier {
             Tier::Quick => "owners {1, 2, d/3}; placements x 4 kinds x internal url forms; others in {titled, untitled, back, linked-title}; titles {plain, none, link}; 4 new names".into(),
-            Tier::Thorough => "owners {1, 2, d/3}; placements x 4 kinds x internal url forms; others in {titled, untitled, back, linked-title}; titles {plain, none, link}; 4 new names".into(),
+            Tier::Thorough => "owners {1, 2, d/3, d/4, dx/5}; placements x all 6 kinds x internal url forms; others in {titled, untitled, back, linked-title}; titles {plain, none, link}; 4 new names; plus a second link block (6 placements x {reg, wikip} x internal url forms) in the renaming note for owners {1, 2, d/3}".into(),
         }
     }
     fn assumptions(&self) -> Vec<String> {
@@ -69,21 +69,49 @@ impl Engine for C08 {
         ]
     }
     fn enumerate(&self, tier: Tier, emit: &mut dyn FnMut(&str)) {
-        // the deep space takes a few seconds: both tiers run it
-        let _ = tier;
+        // the deep space takes a few seconds: the quick tier runs it; thorough adds every note as
+        // owner, the remaining link kinds and a second link block in the renaming note
         let deep = true;
-        let owners: Vec<&str> = if deep { vec!["1", "2", "d/3"] } else { vec!["1", "d/3"] };
+        let thorough = tier == Tier::Thorough;
+        let owners: Vec<&str> = if thorough { libspace::KEYS.to_vec() } else if deep { vec!["1", "2", "d/3"] } else { vec!["1", "d/3"] };
+        let kinds: Vec<&str> = if thorough { libspace::KINDS.to_vec() } else { vec!["reg", "empty", "wiki", "wikip"] };
         let others: Vec<&str> = if deep { vec!["titled", "untitled", "back", "linked-title"] } else { vec!["titled", "back"] };
         let titles: Vec<&str> = if deep { vec!["plain", "none", "link"] } else { vec!["plain"] };
         for owner in &owners {
             for p in libspace::PLACEMENTS {
-                for k in ["reg", "empty", "wiki", "wikip"] {
+                for k in kinds.iter().copied() {
                     for u in internal_forms(owner) {
                         for o in &others {
                             for t in &titles {
                                 for n in NEW_NAMES {
                                     let lc = LibCase { owner: owner.to_string(), title: t.to_string(), others: o.to_string(), ext: String::new(), blocks: vec![(p.to_string(), k.to_string(), u.clone())] };
                                     emit(&format!("{}|new={}", lc.to_string(), n));
+                                }
+                            }
+                        }
+                    }
+                }
+            }
+        }
+        if thorough {
+            for owner in ["1", "2", "d/3"] {
+                for p in libspace::PLACEMENTS {
+                    for k in ["reg", "wiki"] {
+                        for u in internal_forms(owner) {
+                            for p2 in ["block-ref", "inline-para", "table-cell", "quote", "item", "heading"] {
+                                for k2 in ["reg", "wikip"] {
+                                    for u2 in internal_forms(owner) {
+                                        for n in NEW_NAMES {
+                                            let lc = LibCase {
+                                                owner: owner.to_string(),
+                                                title: "plain".into(),
+                                                others: "back".into(),
+                                                ext: String::new(),
+                                                blocks: vec![(p.to_string(), k.to_string(), u.clone()), (p2.to_string(), k2.to_string(), u2.clone())],
+                                            };
+                                            emit(&format!("{}|new={}", lc.to_string(), n));
+                                        }
+                                    }
                                 }
                             }
                         }
